@@ -204,18 +204,19 @@ PROPS['C06'] = {
 }
 PROPS['C07'] = {
     'level': 'proof',
-    'vx': [{'unit': 'agent', 'functions': ['handle_stun', 'take_outstanding_request', 'validated_peer', 'StunRequestState :: new']}],
+    'vx': [{'unit': 'agent', 'functions': ['handle_stun', 'take_outstanding_request', 'validated_peer', 'StunRequestState :: new', 'set_remote_credentials', 'set_local_credentials']}],
     'bx': ['c07'],
     'rule': 'Verus VCs of handle_stun and StunRequestState::new in unit agent.',
     'proved': ['StunResponse => transaction outstanding and (request_had_credentials => remote credentials set and validate_integrity(msg, them) is Ok)',
                'had credentials and (no remote credentials or validation Err) => Drop and the whole abstract state (every ReqView incl. timer, peer set) unchanged; no credentials => delivered without validation',
-               'request_had_credentials <=> builder has MESSAGE-INTEGRITY or MESSAGE-INTEGRITY-SHA256'],
+               'request_had_credentials <=> builder has MESSAGE-INTEGRITY or MESSAGE-INTEGRITY-SHA256',
+               'set_remote_credentials / set_local_credentials change exactly the field they name (the credentials handle_stun validates against are the ones handed over last); transactions, peers and configuration are untouched'],
     'bounded': ['end to end with real HMACs (meaning of validate_integrity is C04): BX'],
     'trusted': _AGENT_TRUST,
 }
 PROPS['C15'] = {
     'level': 'proof',
-    'vx': [{'unit': 'agent', 'functions': ['handle_stun', 'validated_peer', 'is_validated_peer', 'impl StunAgent :: send', 'take_outstanding_request', 'cancel', 'mut_request_state', 'theorem_peers']}],
+    'vx': [{'unit': 'agent', 'functions': ['handle_stun', 'validated_peer', 'is_validated_peer', 'impl StunAgent :: send', 'take_outstanding_request', 'cancel', 'mut_request_state', 'theorem_peers', 'set_remote_credentials', 'set_local_credentials', 'mut_request_transaction']}],
     'bx': ['c15'],
     'rule': 'Verus VCs of unit agent: whole-set postconditions on validated_peers and theorem_peers.',
     'proved': ['peers\' == peers + {from} exactly on IncomingStun / StunResponse exits; peers unchanged on Drop, in send, cancel, cancel_retransmissions, take_outstanding_request',
